@@ -270,7 +270,12 @@ impl<L: Localize> OpeningHours<L> {
     /// assert_eq!(oh.state(date_2), RuleKind::Unknown);
     /// ```
     pub fn state(&self, current_time: L::DateTime) -> RuleKind {
-        self.iter_range(current_time.clone(), current_time + Duration::minutes(1))
+        // The one-minute window is built on wall-clock time: one minute later in absolute time
+        // can be an earlier wall-clock time when the clock is set back.
+        let from = self.ctx.locale.naive(current_time);
+        let to = (from.checked_add_signed(Duration::minutes(1))).unwrap_or(NaiveDateTime::MAX);
+
+        self.iter_range_naive(from, to)
             .next()
             .map(|dtr| dtr.kind)
             .unwrap_or(RuleKind::Closed)
